@@ -70,6 +70,8 @@ def positions(src, n, rng):
 
 # ---------------------------------------------------------------- fresh answers (fork per case)
 def _fresh_child(case, wfd):
+    import signal
+    signal.alarm(300)        # a query that never returns ends the child (the parent then reports "no output")
     if case.get('perturb'):
         # forked children share the parent's memory layout: shift object addresses
         import random
